@@ -229,6 +229,10 @@ def _captured_parts(val: ast.AST) -> List[ast.AST]:
         return out
     if isinstance(val, ast.IfExp):
         return _captured_parts(val.body) + _captured_parts(val.orelse)
+    if isinstance(val, (ast.ListComp, ast.SetComp, ast.GeneratorExp)):
+        return _captured_parts(val.elt)
+    if isinstance(val, ast.DictComp):
+        return _captured_parts(val.value)
     return [val]
 
 
@@ -241,6 +245,10 @@ def _is_alias_expr(model: Model, e: ast.AST, tainted: Set[str]) -> bool:
     if isinstance(e, ast.Call):
         f = e.func
         fname = f.attr if isinstance(f, ast.Attribute) else (f.id if isinstance(f, ast.Name) else '')
+        # copy.copy(obj) is SHALLOW: the new object shares every container / array attribute of obj
+        if fname == 'copy' and e.args and ((isinstance(f, ast.Attribute) and isinstance(f.value, ast.Name) and f.value.id == 'copy')
+                                           or isinstance(f, ast.Name)):
+            return _is_alias_expr(model, e.args[0], tainted)
         if fname in COPY_FUNCS:
             return False
         if isinstance(f, ast.Attribute) and _is_alias_expr(model, f.value, tainted):
